@@ -19,7 +19,17 @@ type sampler struct {
 
 func (s *sampler) intn(lo, hi int, l string) int { return lo + U(s.t, hi-lo+1, l) }
 
-func (s *sampler) rune_() rune { return Pick(s.t, s.alpha, "irune") }
+// BoundaryRunes sit at the edges of the encoding and of the tables parsers special-case:
+// the last Basic Latin rune and the first one behind it, the ends of the 2/3/4-byte ranges,
+// the runes around the surrogate gap, NUL.
+var BoundaryRunes = []rune{0x7f, 0x80, 0x81, 0xff, 0x100, 0x7ff, 0x800, 0xd7ff, 0xe000, 0xfffe, 0xffff, 0x10000, 0x10ffff, 0}
+
+func (s *sampler) rune_() rune {
+	if U(s.t, 12, "boundaryrune") == 0 {
+		return Pick(s.t, BoundaryRunes, "brune")
+	}
+	return Pick(s.t, s.alpha, "irune")
+}
 
 func flipCase(r rune) rune {
 	if unicode.IsLower(r) {
